@@ -2,6 +2,7 @@
 
 Modes for `double`:  fp   = SMT Float64, bit precise
                      fpu  = as fp, but fmul/fdiv/frem of two non-constant operands are uninterpreted functions
+                     fpa  = as fp for comparisons/selection/abs/min/max, every fadd/fsub/fmul/fdiv result uninterpreted
                      real = exact real arithmetic (rounding, NaN, infinities outside the claim)
                      conc = everything concrete (IR interpreter used for translation validation)
 """
@@ -327,6 +328,9 @@ class Exec:
             if op == 'fdiv': return ('f', X / Y)
             raise Unsupported('frem in real mode')
         X, Y = s.fz(a), s.fz(b)
+        if s.mode == 'fpa':          # every arithmetic result is arbitrary (sound over-approximation for safety/termination claims)
+            if op in ('fmul', 'fadd') and X.get_id() > Y.get_id(): X, Y = Y, X
+            return ('f', s.uf('uf_' + op, 2)(X, Y))
         if s.mode == 'fpu' and op in ('fmul', 'fdiv', 'frem') and not isinstance(x, float) and not isinstance(y, float):
             if op == 'fmul' and X.get_id() > Y.get_id(): X, Y = Y, X
             return ('f', s.uf('uf_' + op, 2)(X, Y))
